@@ -26,10 +26,14 @@ CONSTANTS
   \* @type: Int;
   Epoch,                  \* Unix seconds of the NTP epoch 1900-01-01 (negative)
   \* @type: Bool;
-  ForwardOnlyEraUnfold    \* FALSE (default): the code since /repo commit 28e9272, with the
-                          \*   symmetric backward branch `else if sec >= tref+secondsPerEra/2`;
+  ForwardOnlyEraUnfold,   \* FALSE (default): with the backward branch (since /repo commit 28e9272);
                           \* TRUE: the code before it (only `sec += secondsPerEra`), kept as a
                           \*   specification self-test (NtpTime_faithful.cfg must be refuted)
+  \* @type: Bool;
+  WholeSecondUnfold       \* FALSE (default): at exactly half an era of whole seconds the
+                          \*   fractions decide (fixes/C04-subsecond-window-edge.diff);
+                          \* TRUE: the era is chosen from whole seconds only (tref = t0.Unix()),
+                          \*   kept as a specification self-test (NtpTime_wholesec.cfg must be refuted)
 
 Half == EraSecs \div 2
 
@@ -50,24 +54,39 @@ Encode(t) == [seconds |-> Sec32(t[1]), fraction |-> Frac(t[2])]
 (* TimeFromTime64(x, t0):                                                  *)
 (*   tref := t0.Unix()                                                     *)
 (*   sec  := epoch + (tref-epoch)/secondsPerEra*secondsPerEra + Seconds    *)
-(*   if sec < tref-secondsPerEra/2 { sec += secondsPerEra }                *)
-(*   else if sec >= tref+secondsPerEra/2 { sec -= secondsPerEra }          *)
+(*   fref := uint32(int64(t0.Nanosecond()) << 32 / nanosecondsPerSecond)   *)
+(*   if sec < tref-secondsPerEra/2 ||                                      *)
+(*      sec == tref-secondsPerEra/2 && Fraction < fref {                   *)
+(*        sec += secondsPerEra                                             *)
+(*   } else if sec > tref+secondsPerEra/2 ||                               *)
+(*      sec == tref+secondsPerEra/2 && Fraction >= fref {                  *)
+(*        sec -= secondsPerEra }                                           *)
 (*   nsec := int64(Fraction) * nanosecondsPerSecond >> 32                  *)
 (*   return time.Unix(sec, nsec)                                           *)
+(* wholeSec = TRUE is the earlier form  `sec < tref-secondsPerEra/2` /     *)
+(* `sec >= tref+secondsPerEra/2`, fwdOnly = TRUE the one without else-if.  *)
 (***************************************************************************)
 EraBase(tref) == Epoch + TDiv(tref - Epoch, EraSecs) * EraSecs
-Unfold(s32, tref, fwdOnly) ==
-  LET sec == EraBase(tref) + s32
-  IN IF sec < tref - Half THEN sec + EraSecs
-     ELSE IF ~fwdOnly /\ sec >= tref + Half THEN sec - EraSecs
+\* @type: (Int, Int, Seq(Int), Bool, Bool) => Int;
+Unfold(s32, f, t0, fwdOnly, wholeSec) ==
+  LET tref == t0[1]
+      fref == Frac(t0[2])
+      sec  == EraBase(tref) + s32
+      fwd  == IF wholeSec THEN sec < tref - Half
+              ELSE sec < tref - Half \/ (sec = tref - Half /\ f < fref)
+      bwd  == IF wholeSec THEN sec >= tref + Half
+              ELSE sec > tref + Half \/ (sec = tref + Half /\ f >= fref)
+  IN IF fwd THEN sec + EraSecs
+     ELSE IF ~fwdOnly /\ bwd THEN sec - EraSecs
      ELSE sec
 Nsec(f) == (f * NsPerSec) \div FracUnits
 \* time.Unix(sec, nsec) normalises nsec into [0, NsPerSec) (never needed: Nsec(f) < NsPerSec)
 \* @type: (Int, Int) => Seq(Int);
 UnixTime(sec, nsec) == <<sec + (nsec \div NsPerSec), nsec % NsPerSec>>
-\* @type: ({ seconds: Int, fraction: Int }, Seq(Int), Bool) => Seq(Int);
-DecodeWith(x, t0, fwdOnly) == UnixTime(Unfold(x.seconds, t0[1], fwdOnly), Nsec(x.fraction))
-Decode(x, t0) == DecodeWith(x, t0, ForwardOnlyEraUnfold)
+\* @type: ({ seconds: Int, fraction: Int }, Seq(Int), Bool, Bool) => Seq(Int);
+DecodeWith(x, t0, fwdOnly, wholeSec) ==
+  UnixTime(Unfold(x.seconds, x.fraction, t0, fwdOnly, wholeSec), Nsec(x.fraction))
+Decode(x, t0) == DecodeWith(x, t0, ForwardOnlyEraUnfold, WholeSecondUnfold)
 
 \* the observed composition  ntp.TimeFromTime64(ntp.Time64FromTime(t), t0)
 RT(t, t0) == Decode(Encode(t), t0)
@@ -100,15 +119,10 @@ NeverLater(t, back) == TLeq(back, t)
 \* clause 3: order is preserved
 OrderKept(t1, t2, back1, back2) == TLeq(t1, t2) => TLeq(back1, back2)
 
-\* The window of the statement, -2^31 s <= t - reference < 2^31 s.  The code reads
-\* the reference at whole seconds; a time is judged only if it is in the window both
-\* for the reference as given and for the reference truncated to its second (the
-\* two readings differ by less than 1 s at the two ends of the window; nothing is
-\* demanded there).
+\* The window of the statement, -2^31 s <= t - reference < 2^31 s, at nanosecond
+\* granularity for a reference with an arbitrary sub-second part.
 \* @type: (Seq(Int), Seq(Int)) => Bool;
-Judged(t, t0) ==
-  /\ Between(t, <<t0[1] - Half, t0[2]>>, <<t0[1] + Half, t0[2]>>)
-  /\ Between(t, <<t0[1] - Half, 0>>, <<t0[1] + Half, 0>>)
+Judged(t, t0) == Between(t, <<t0[1] - Half, t0[2]>>, <<t0[1] + Half, t0[2]>>)
 
 (***************************************************************************)
 (* Model: one reference and one time per behaviour (pure functions); the   *)
@@ -145,31 +159,36 @@ RoundTrip == (Chosen /\ Judged(t, t0)) =>
 
 \* the statement, clause 3.  Probes: the next nanosecond (adjacent pairs give all
 \* pairs by transitivity when NsVals is the full range), the same sub-second value
-\* one second and a quarter of an era later, and the last instant of the window.
+\* one second and a quarter of an era later, and the first and last instant of the window.
 \* @type: (Seq(Int)) => Seq(Int);
 Succ(a) == IF a[2] + 1 < NsPerSec THEN <<a[1], a[2] + 1>> ELSE <<a[1] + 1, 0>>
+\* @type: (Seq(Int)) => Seq(Int);
+Pred(a) == IF a[2] > 0 THEN <<a[1], a[2] - 1>> ELSE <<a[1] - 1, NsPerSec - 1>>
 Probes ==
-  {Succ(t), <<t[1] + 1, t[2]>>, <<t[1] + Half \div 2, t[2]>>, <<t0[1] + Half - 1, NsPerSec - 1>>}
+  {Succ(t), <<t[1] + 1, t[2]>>, <<t[1] + Half \div 2, t[2]>>,
+   <<t0[1] - Half, t0[2]>>, Pred(<<t0[1] + Half, t0[2]>>)}
 Order == (Chosen /\ Judged(t, t0)) =>
   LET back == RT(t, t0) IN
   \A u \in Probes : Judged(u, t0) =>
      /\ OrderKept(t, u, back, RT(u, t0))
      /\ OrderKept(u, t, RT(u, t0), back)
 
-\* the two components do not interact: seconds depend on seconds, sub-seconds on
-\* sub-seconds only (justifies covering all seconds x classes of sub-seconds and
-\* classes of seconds x all sub-seconds in separate configurations)
+\* the two components interact only at exactly half an era of whole seconds: the
+\* sub-second result depends on the sub-second input only, the seconds on the seconds
+\* (justifies covering all seconds x classes of sub-seconds and classes of seconds --
+\* including +-Half -- x all sub-seconds in separate configurations)
 Separable == Chosen =>
-  /\ RT(t, t0)[1] = RT(<<t[1], 0>>, t0)[1]
   /\ RT(t, t0)[2] = RT(<<t0[1], t[2]>>, t0)[2]
+  /\ ((t[1] - t0[1] # Half /\ t[1] - t0[1] # -Half) => RT(t, t0)[1] = RT(<<t[1], 0>>, t0)[1])
 
 \* component lemmas (DESIGN: RoundTripNs, EraOK) and well-formedness of the transcription
 RoundTripNs == Chosen => (Nsec(Frac(t[2])) = t[2] \/ Nsec(Frac(t[2])) = t[2] - 1)
-EraOK == (Chosen /\ -Half <= t[1] - t0[1] /\ t[1] - t0[1] < Half) =>
-            Unfold(Sec32(t[1]), t0[1], ForwardOnlyEraUnfold) = t[1]
+EraOK == (Chosen /\ Judged(t, t0)) =>
+            Unfold(Sec32(t[1]), Frac(t[2]), t0, ForwardOnlyEraUnfold, WholeSecondUnfold) = t[1]
 WellFormed == Chosen =>
   /\ Frac(t[2]) = (t[2] * FracUnits) \div NsPerSec          \* uint32(.) of the fraction never wraps
   /\ 0 <= Nsec(Frac(t[2])) /\ Nsec(Frac(t[2])) < NsPerSec    \* time.Unix never normalises
   /\ (TLeq(RT(t, t0), t) <=> DiffNs(RT(t, t0), t) <= 0)      \* digit order is numeric order
   /\ (t[2] + 1 < NsPerSec => Frac(t[2]) < Frac(t[2] + 1))    \* distinct times, distinct timestamps
+  /\ (t[2] < t0[2] <=> Frac(t[2]) < Frac(t0[2]))             \* comparing fractions = comparing nanoseconds
 =============================================================================
